@@ -312,6 +312,8 @@ func c02ParamSets(tier string) (ps []c02Params, d int) {
 			{Kind: "cat", Files: []int{1, 2}, Glob: true, CatLimit: 1, ReadDelayMs: 3100, D: 1},
 			{Kind: "grep", Files: []int{3}, CatLimit: 2, Max: 2, After: 1, ReadDelayMs: 5200, D: 1},
 			{Kind: "cat", Files: []int{3}, CatLimit: 2, Stall: 61 * time.Second, StallAt: 3, D: 1},
+			{Kind: "cat", Files: []int{1, 1, 1}, Glob: true, CatLimit: 1, D: 1},
+			{Kind: "cat", Files: []int{1, 0, 1, 1, 2}, Glob: true, CatLimit: 2, D: 1},
 			{Kind: "cat", Files: []int{1, 2}, Glob: true, CatLimit: 1, Refused: true, D: 1},
 			{Kind: "grep", Files: []int{2}, Glob: true, CatLimit: 2, Max: 1, Refused: true, D: 1},
 		}, 2
@@ -334,6 +336,7 @@ func c02ParamSets(tier string) (ps []c02Params, d int) {
 		c02Params{Kind: "grep", Files: []int{2, 3}, CatLimit: 1, Max: 2, After: 0},
 		c02Params{Kind: "cat", Files: []int{101}, CatLimit: 2},
 		c02Params{Kind: "cat", Files: []int{100, 1}, Glob: true, CatLimit: 1},
+		c02Params{Kind: "cat", Files: []int{1, 0, 1, 1, 2}, Glob: true, CatLimit: 2},
 		c02Params{Kind: "cat", Files: []int{1, 2}, Glob: true, CatLimit: 1, Refused: true},
 		c02Params{Kind: "cat", Files: []int{2}, Glob: true, CatLimit: 2, Refused: true},
 		c02Params{Kind: "grep", Files: []int{2}, Glob: true, CatLimit: 2, Max: 1, Refused: true})
@@ -345,7 +348,7 @@ func init() {
 		ID:    "C02",
 		Level: "model_checking",
 		Rule: "stateless exploration of all schedules within a deviation bound (quick 1, thorough 2; deviations = preemption, non-first ready select case, demotion of a goroutine) of one complete dcat/dgrep session: " +
-			"the real client main body, serverless connector, server handler, read commands, readers and client handler; sessions of 1-3 files with 0-2 lines (plus 100/101 lines around the queue capacity), one command per file or one glob, " +
+			"the real client main body, serverless connector, server handler, read commands, readers and client handler; sessions of 1-3 files (and one of 5 files: more than twice the limit queue) with 0-2 lines (plus 100/101 lines around the queue capacity), one command per file or one glob, " +
 			"cat limit 1-2, grep with max/after, globs that also match a directory, a dangling link and a file the permission rules deny, consumer eager or stalled 50 ms..6 s before the k-th write; oracle: per file exactly its selected lines once and in order, exit status 0, termination before the horizon; " +
 			"plus a 4-file session whose command stream is delivered in segments of 1..32768 bytes through a re-used transport buffer (as an SSH channel does); distinct = distinct (scenario, stdout+status) outcomes",
 		Assumptions: []string{
